@@ -1,4 +1,4 @@
-/* C16 harnesses (sliced from src/tbb: thread_request_serializer.cpp, task_dispatcher.h, arena.cpp, arena_slot.h) */
+/* C16 harnesses (sliced from src/tbb: thread_request_serializer.cpp/.h, task_dispatcher.h, arena.cpp/.h, arena_slot.h, market.cpp, pm_client.h, permit_manager.h, misc.h; include: _utils.h, task_arena.h) */
 #include "verif.h"
 #include <stdlib.h>
 
@@ -95,6 +95,583 @@ void h_occupy(void) {
     OBLIGATION(!(as_worker && r != out_of_arena) || r >= a.my_num_reserved_slots, "C16.slot: a worker never gets a reserved slot");
     OBLIGATION(r == out_of_arena ? g_claims == 0 : (g_claims == 1 && g_claimed == &a.my_slots[r]), "C16.slot: exactly the returned slot was claimed");
     OBLIGATION(a.my_limit >= limit0 && (r == out_of_arena || a.my_limit >= r + 1), "C16.slot: my_limit only grows and covers the occupied slot");
+    VACUITY_END();
+}
+#endif
+
+#if defined(ALLOT) || defined(ALLOT_REAL) || defined(ALLOT_LEMMA)
+/* Step contract SL of the proportional split (mathematical integers; d = level demand, app = workers assigned to the level, mw = the client's request,
+   S = requests of the clients served before, A = workers given to them, c = carry).  With I(A,c,S): A*d + c == app*S,
+     SL_PRE and I(A,c,S), tmp = mw*app + c, q = tmp/d, r = tmp%d   imply   SL_POST_Q(q), SL_POST_R(r) and I(A+q, r, S+mw).
+   Proof: q*d + r = mw*app + c, 0 <= r < d.  (A+q)*d + r = A*d + c + mw*app = app*(S+mw)  [I'].  q*d <= mw*app + c < mw*d + d so q <= mw.
+   (A+q)*d <= app*(S+mw) <= app*d so A+q <= app.  If S+mw == d: (app-(A+q))*d == r < d so A+q == app and r == 0.  If app == d: A*d + c == d*S so c == 0 (c < d), q = mw, r = 0. */
+#define SL_PRE(d, app, mw, S, A, c) ((d) > 0 && 0 <= (app) && (app) <= (d) && (mw) >= 1 && (S) >= 0 && (S) + (mw) <= (d) && (A) >= 0 && 0 <= (c) && (c) < (d))
+#define SL_POST_Q(d, app, mw, S, A, c, q) (0 <= (q) && (q) <= (mw) && (A) + (q) <= (app) && ((S) + (mw) != (d) || (A) + (q) == (app)) && ((app) != (d) || (q) == (mw)))
+#define SL_POST_R(d, app, mw, S, A, c, r) (0 <= (r) && (r) < (d) && ((S) + (mw) != (d) || (r) == 0) && ((app) != (d) || (r) == 0))
+
+#endif
+
+#ifdef ALLOT_LEMMA
+/* SL checked with the real C operators * / % on int, for all operands below LEMMA_LIM (width-bounded: SAT cannot decide it for 32-bit operands) */
+#ifndef LEMMA_LIM
+#define LEMMA_LIM 64
+#endif
+int IN_d, IN_app, IN_mw, IN_S, IN_A, IN_c;
+void h_allot_lemma(void) {
+    int d = IN_d = nondet_int(), app = IN_app = nondet_int(), mw = IN_mw = nondet_int(), S = IN_S = nondet_int(), A = IN_A = nondet_int(), c = IN_c = nondet_int();
+    __CPROVER_assume(0 <= d && d < LEMMA_LIM && 0 <= app && app < LEMMA_LIM && 0 <= mw && mw < LEMMA_LIM && 0 <= S && S < LEMMA_LIM && 0 <= A && A < LEMMA_LIM && 0 <= c && c < LEMMA_LIM);
+    __CPROVER_assume(SL_PRE(d, app, mw, S, A, c) && A * d + c == app * S);
+    int tmp = mw * app + c;
+    int q = tmp / d;
+    int r = tmp % d;
+    OBLIGATION(SL_POST_Q(d, app, mw, S, A, c, q), "C16.allot.lemma: the quotient is between 0 and the request, the level's running total stays within the level's share and meets it exactly with the last client (bounded)");
+    OBLIGATION(SL_POST_R(d, app, mw, S, A, c, r), "C16.allot.lemma: the carry is a remainder below the level demand and vanishes with the last client (bounded)");
+    OBLIGATION((A + q) * d + r == app * (S + mw), "C16.allot.lemma: the split invariant A*d + c == share*S is preserved (bounded)");
+    OBLIGATION(mw * app >= 0 && (app != 0 || mw * app == 0), "C16.allot.lemma: sign rule assumed for the abstract product (bounded)");
+    VACUITY_END();
+}
+#endif
+
+#if defined(ALLOT) || defined(ALLOT_REAL)
+/* market::update_allotment (+ pm_client accessors, tbb_permit_manager_client::set_allotment, arena::set_allotment/set_top_priority, min<int>).
+   Both loops are under contract: the level loop and, for each level, the loop over a client list of ANY length.  The list of level l is an array of client
+   objects (entry i is THE i-th client; clients are pairwise distinct by representation).  Obligations are stated for ONE arbitrary client k (ghost level/position);
+   the arena of k is a separate object, the arenas of all other clients are collapsed into one summary object (the sliced code writes arenas only; the one read in
+   arena::set_allotment decides whether the same value is stored again).  G.S is the sum of max_workers of the clients of the current level visited so far;
+   the market invariants `level demand == sum of the level's requests` and `total demand == sum of the level demands` enter where a client is read: the
+   running sum never exceeds the level's demand and reaches it exactly with the last client of the list.
+   ALLOT:      the three non-linear operations (max_workers*assigned_per_priority, tmp/demand, tmp%demand) are replaced by their step contract SL (below),
+               whose conclusions are assumed only when the call has the shape and the linear preconditions the contract needs; everything else (the
+               bookkeeping of unassigned/assigned_per_priority/assigned/carry/max_priority_level, the soft-limit-0 branch) is proved for all int values.
+   ALLOT_REAL: the same text with the real operators and the non-linear invariant written out, on a width-bounded domain (BD).
+   SL is itself checked with the real C operators on a width-bounded domain (job allot.lemma). */
+#ifdef ALLOT_REAL
+#define OBL(c, m) OBLIGATION(c, m " (bounded)")
+#else
+#define OBL(c, m) OBLIGATION(c, m)
+#endif
+#define NPL 3
+#define NMAX ((size_t)1 << 12)
+#ifndef VALMAX
+#define VALMAX (1 << 28)      /* demands and limits up to 2^28 (no int overflow in sums of three level demands) */
+#endif
+struct arena_a { unsigned my_num_workers_allotted; bool my_is_top_priority; };
+struct pmclient { int my_min_workers, my_max_workers; };
+struct clist { struct pmclient *v; size_t n; };
+struct market { int my_num_workers_soft_limit, my_total_demand, my_priority_level_demand[NPL], my_mandatory_num_requested; struct clist my_clients[NPL]; };
+#define ATOMIC_LOAD(x) (x)
+#define ATOMIC_STORE(x, v) ((x) = (v))
+/* constant during the call */
+static struct market *g_mk; static long g_budget, g_exp[NPL];
+static bool g_has_k, g_has_w; static unsigned g_kl, g_wl; static size_t g_ki, g_wi; static struct pmclient *g_kv, *g_wv; static unsigned g_allot0; static bool g_top0;
+/* changed by the call (one object, so that the loops' assigns clauses stay short) */
+static struct { unsigned l; int cur_mw; long S, S0, app, A, c, rem, granted, lev[NPL]; bool I; int calls_k;
+                int mul_a, mul_b, mul_p, div_t; bool div_ok; long div_A0; struct arena_a karena, others; } G;
+#define FIRSTNZ(m) ((m)->my_priority_level_demand[0] > 0 ? 0u : (m)->my_priority_level_demand[1] > 0 ? 1u : (m)->my_priority_level_demand[2] > 0 ? 2u : 3u)
+#define DEM(j) (self->my_priority_level_demand[j])
+#define GDEM(j) (g_mk->my_priority_level_demand[j])
+/* pm_client::my_arena is a reference to the arena the client was created for (one arena per client) */
+#define PMC_ARENA(c) ((c) == g_kv ? &G.karena : &G.others)
+static void tpmc_set_allotment(struct pmclient *self, unsigned allotment);
+/* the int -> unsigned conversion of the real call happens at this parameter, exactly as at tbb_permit_manager_client::set_allotment(unsigned) */
+static void allot_set(struct pmclient *c, unsigned allotment) {
+    OBL(allotment <= (unsigned)c->my_max_workers, "C16.allot.request: no arena is granted more workers than it requested (and never a negative number)");
+    if (g_mk->my_num_workers_soft_limit != 0) {
+        OBL(G.lev[G.l] + (long)allotment <= G.app, "C16.allot.levels: the arenas of a priority level never get more than the level was assigned");
+#ifdef ALLOT
+        OBL(G.I, "C16.allot.split: grant and carry are quotient and remainder of (request * level share + previous carry) / level demand, so that no worker of the level's share is lost or invented");
+#endif
+        G.lev[G.l] += allotment;
+    } else {
+        OBL(G.granted + (long)allotment <= 1, "C16.allot.mandatory: with a soft limit of 0 at most one worker is granted in total");
+        OBL(allotment == 0 || (c->my_min_workers > 0 && g_mk->my_mandatory_num_requested > 0), "C16.allot.mandatory: with a soft limit of 0 only an arena with a mandatory request gets the worker");
+    }
+    G.granted += allotment; if (c == g_kv) G.calls_k++;
+    tpmc_set_allotment(c, allotment);
+    OBL(PMC_ARENA(c)->my_num_workers_allotted == allotment, "C16.allot.store: the arena's allotment is the value just decided for it");
+}
+#define CLIENT_SET_ALLOTMENT(c, x) allot_set((c), (x))
+static void pm_client_set_top_priority(struct pmclient *self, bool b);
+static void allot_top(struct pmclient *c, bool b) {
+    OBL(c->my_max_workers == 0 || b == (G.l == FIRSTNZ(g_mk)), "C16.allot.top: an arena with a request is flagged top-priority iff no higher priority level holds demand");
+    pm_client_set_top_priority(c, b);
+}
+#define CLIENT_SET_TOP(c, b) allot_top((c), (b))
+static size_t allot_rbegin(struct clist *list, unsigned l, int app, int unassigned) {
+    __CPROVER_assert(l < NPL && list == &g_mk->my_clients[l], "C16.allot: the list iterated is the client list of the current level");
+    if (g_mk->my_num_workers_soft_limit != 0) {      /* with a soft limit of 0 the level budget plays no role in what is granted */
+        OBL((long)app == (GDEM(l) < G.rem ? GDEM(l) : G.rem), "C16.allot.levels: a priority level is assigned min(its demand, what the higher-priority levels left)");
+        G.rem -= app;
+        OBL((long)unassigned == G.rem, "C16.allot.levels: the unassigned budget decreases by exactly what the level was given");
+        OBL(unassigned >= 0, "C16.allot.levels: the unassigned budget never goes negative");
+    }
+    __CPROVER_assume(list->n != 0 || GDEM(l) == 0);                      /* market invariant: a level's demand is the sum of its clients' requests (empty list) */
+    G.l = l; G.S = 0; G.app = app; G.A = 0; G.c = 0; G.I = true /* I(0,0,0): 0*d + 0 == app*0 */; return 0;
+}
+#define CLIST_RBEGIN(list) allot_rbegin(&(list), list_idx, assigned_per_priority, unassigned_workers)
+#define CLIST_REND(list) ((list).n)
+static struct pmclient *allot_deref(size_t it) {
+    struct clist *list = &g_mk->my_clients[G.l];
+    __CPROVER_assert(it < list->n, "C16.allot: the iterator is dereferenced inside the client list");
+    struct pmclient *c = &list->v[list->n - 1 - it];                       /* reverse iterator: last registered client first */
+    __CPROVER_assume(c->my_max_workers >= 0 && c->my_min_workers >= 0);   /* pm_client::set_workers */
+    /* market invariant: a level's demand is the sum of its clients' requests: the running sum G.S reaches the demand exactly with the last client */
+    __CPROVER_assume(it + 1 == list->n ? G.S + c->my_max_workers == (long)GDEM(G.l) : G.S + c->my_max_workers <= (long)GDEM(G.l));
+    G.S0 = G.S; G.S += c->my_max_workers; G.cur_mw = c->my_max_workers;
+    return c;
+}
+#define CLIST_DEREF(it) allot_deref(it)
+
+#ifdef ALLOT
+/* listed assumption: max_workers*assigned_per_priority + carry does not overflow int */
+static int allot_mul(int a, int b) {
+    int p = nondet_int();
+    __CPROVER_assume(!(a >= 0 && b >= 0) || (p >= 0 && p <= INT_MAX / 2)); __CPROVER_assume(!(a == 0 || b == 0) || p == 0);
+    G.mul_a = a; G.mul_b = b; G.mul_p = p; return p;
+}
+static int allot_div(int t, int d) {
+    __CPROVER_assert(d != 0, "C16.allot: no division by zero (a client with a request implies demand on its level)");
+    int q = nondet_int();
+    __CPROVER_assume(!(d > 0 && t >= 0) || (q >= 0 && q <= t));
+    long S = G.S0;
+    G.div_ok = G.I && d == GDEM(G.l) && SL_PRE((long)d, G.app, (long)G.cur_mw, S, G.A, G.c)
+            && G.mul_a == G.cur_mw && (long)G.mul_b == G.app && (long)t == (long)G.mul_p + G.c;       /* the call is an instance of SL: t == mw*app + c */
+    if (G.div_ok) { __CPROVER_assume(SL_POST_Q((long)d, G.app, (long)G.cur_mw, S, G.A, G.c, (long)q)); G.div_t = t; G.div_A0 = G.A; G.A += q; }
+    G.I = false;                /* I(A+q, r, S+mw) is re-established only by the matching remainder */
+    return q;
+}
+static int allot_mod(int t, int d) {
+    __CPROVER_assert(d != 0, "C16.allot: no division by zero (a client with a request implies demand on its level)");
+    int r = nondet_int();
+    __CPROVER_assume(!(d > 0 && t >= 0) || (r >= 0 && r < d));
+    long S = G.S0;
+    if (!G.I && G.div_ok && t == G.div_t && d == GDEM(G.l)) { __CPROVER_assume(SL_POST_R((long)d, G.app, (long)G.cur_mw, S, G.div_A0, G.c, (long)r)); G.c = r; G.div_ok = false; G.I = true; }
+    else G.I = false;
+    return r;
+}
+#define ALLOT_MUL(a, b) allot_mul((a), (b))
+#define ALLOT_DIV(a, b) allot_div((a), (b))
+#define ALLOT_MOD(a, b) allot_mod((a), (b))
+#define INV_I G.I
+#else
+/* the real operators; the ghosts only mirror what the code computed */
+#define ALLOT_MUL(a, b) ((a) * (b))
+#define ALLOT_DIV(a, b) ({ int q_ = (a) / (b); G.A += q_; q_; })
+#define ALLOT_MOD(a, b) ({ int r_ = (a) % (b); G.c = r_; r_; })
+#define INV_I ((int)G.A * DEM(list_idx) + (int)G.c == (int)G.app * (int)G.S)
+#endif
+
+#define PROP (self->my_num_workers_soft_limit != 0)
+/* soft limit 0: unassigned_workers is computed but never used for a grant; only its freedom from overflow is needed */
+#define LOOSE(u) (-(long)list_idx * VALMAX <= (long)(u) && (long)(u) <= (long)VALMAX)
+#define KALLOT (G.karena.my_num_workers_allotted)
+/* what is known about the ghost client k once it has been visited; `full`: its level was assigned its whole demand */
+#define KFACTS(asg, mxw, full) ((unsigned)KALLOT <= (unsigned)g_kv->my_max_workers && (g_kv->my_max_workers != 0 || KALLOT == 0) \
+     && (!(g_mk->my_num_workers_soft_limit != 0 && (full)) || KALLOT == (unsigned)g_kv->my_max_workers) \
+     && (g_kv->my_max_workers == 0 || G.karena.my_is_top_priority == (g_kl == FIRSTNZ(g_mk))) \
+     && (g_mk->my_num_workers_soft_limit != 0 || ((KALLOT != 1 || g_kv->my_min_workers > 0) && KALLOT <= 1 \
+            && (!(KALLOT == 0 && g_kv->my_min_workers > 0 && g_kv->my_max_workers > 0) || (long)(asg) >= (long)(mxw)))))
+#define KUNTOUCHED (KALLOT == g_allot0 && KALLOT == g_allot0 && G.karena.my_is_top_priority == g_top0)
+#define LEVFULL(j) (G.lev[j] == (long)GDEM(j))
+/* head of the level loop: levels [0, list_idx) are done */
+#define LOOP_ua_1 __CPROVER_assigns(list_idx, unassigned_workers, assigned, carry, max_priority_level, G) \
+  __CPROVER_loop_invariant(list_idx <= num_priority_levels && self == g_mk && (long)assigned == G.granted \
+     && (list_idx > 0 || G.lev[0] == 0) && (list_idx > 1 || G.lev[1] == 0) && (list_idx > 2 || G.lev[2] == 0) \
+     && (!PROP || ((long)unassigned_workers == G.rem && unassigned_workers >= 0 && (long)assigned == (long)max_workers - unassigned_workers && carry == 0 \
+                   && (list_idx < 1 || G.lev[0] == g_exp[0]) && (list_idx < 2 || G.lev[1] == g_exp[1]) && (list_idx < 3 || G.lev[2] == g_exp[2]) \
+                   && G.rem == g_budget - (list_idx > 0 ? g_exp[0] : 0) - (list_idx > 1 ? g_exp[1] : 0) - (list_idx > 2 ? g_exp[2] : 0))) \
+     && (PROP || (0 <= assigned && assigned <= max_workers && max_workers <= 1 && G.lev[0] == 0 && G.lev[1] == 0 && G.lev[2] == 0 && LOOSE(unassigned_workers) \
+                   && (!(g_has_w && g_wl < list_idx && g_wv->my_min_workers > 0 && g_wv->my_max_workers > 0) || assigned >= max_workers))) \
+     && (max_priority_level == num_priority_levels ? FIRSTNZ(self) >= list_idx : (max_priority_level == FIRSTNZ(self) && max_priority_level < list_idx)) \
+     && (!g_has_k || (g_kl < list_idx ? KFACTS(assigned, max_workers, LEVFULL(g_kl)) : KUNTOUCHED)) \
+     && G.calls_k == ((g_has_k && g_kl < list_idx) ? 1 : 0)) \
+  __CPROVER_decreases(num_priority_levels - list_idx)
+/* head of the client loop of level list_idx: the first `it` clients (in visiting order) are done */
+#define VISITED(has, kl, ki) ((has) && ((kl) < list_idx || ((kl) == list_idx && (ki) < it)))
+#define LOOP_ua_2 __CPROVER_assigns(it, assigned, carry, max_priority_level, G) \
+  __CPROVER_loop_invariant(it <= self->my_clients[list_idx].n && list_idx < num_priority_levels && G.l == list_idx && G.app == (long)assigned_per_priority && self == g_mk \
+     && (long)assigned == G.granted && 0 <= G.S && G.S <= (long)DEM(list_idx) && (it != self->my_clients[list_idx].n || G.S == (long)DEM(list_idx)) \
+     && (list_idx >= 1 || G.lev[1] == 0) && (list_idx >= 2 || G.lev[2] == 0) \
+     && (!PROP || ((long)unassigned_workers == G.rem && (long)assigned - ((long)max_workers - unassigned_workers - assigned_per_priority) == G.A && (long)carry == G.c && 0 <= G.A && G.A <= G.app && 0 <= G.c \
+                   && (DEM(list_idx) > 0 ? G.c < (long)DEM(list_idx) : G.c == 0) && (G.S != (long)DEM(list_idx) || (G.A == G.app && G.c == 0)) && G.lev[list_idx] == G.A \
+                   && (list_idx < 1 || G.lev[0] == g_exp[0]) && (list_idx < 2 || G.lev[1] == g_exp[1]) && INV_I)) \
+     && (PROP || (0 <= assigned && assigned <= max_workers && max_workers <= 1 && G.lev[0] == 0 && G.lev[1] == 0 && G.lev[2] == 0 \
+                   && (!(VISITED(g_has_w, g_wl, g_wi) && g_wv->my_min_workers > 0 && g_wv->my_max_workers > 0) || assigned >= max_workers))) \
+     && (max_priority_level == num_priority_levels ? (FIRSTNZ(self) >= list_idx && G.S == 0) : (max_priority_level == FIRSTNZ(self) && max_priority_level <= list_idx)) \
+     && (!g_has_k || (VISITED(g_has_k, g_kl, g_ki) ? KFACTS(assigned, max_workers, (g_kl == list_idx ? G.app == (long)DEM(list_idx) : LEVFULL(g_kl))) : KUNTOUCHED)) \
+     && G.calls_k == (VISITED(g_has_k, g_kl, g_ki) ? 1 : 0)) \
+  __CPROVER_decreases(self->my_clients[list_idx].n - it)
+#include "allot_callees.inc"
+#include "allot.inc"
+
+int IN_soft, IN_mand, IN_d0, IN_d1, IN_d2; size_t IN_n0, IN_n1, IN_n2;
+static struct market M;
+static void mk_level(unsigned l, size_t *in_n, int *in_d) {
+    size_t n = *in_n = nondet_size_t(); __CPROVER_assume(n <= NMAX);
+    M.my_clients[l].n = n; M.my_clients[l].v = malloc((n + 1) * sizeof(struct pmclient)); __CPROVER_assume(M.my_clients[l].v != NULL);
+    int d = *in_d = nondet_int(); __CPROVER_assume(0 <= d && d <= VALMAX); M.my_priority_level_demand[l] = d;
+    G.lev[l] = 0;
+}
+static struct pmclient *pick(bool *has, unsigned *kl, size_t *ki) {
+    *has = nondet_bool(); *kl = nondet_unsigned(); *ki = nondet_size_t(); __CPROVER_assume(*kl < NPL);
+    if (!*has) return NULL;
+    __CPROVER_assume(*ki < M.my_clients[*kl].n);
+    struct pmclient *c = &M.my_clients[*kl].v[M.my_clients[*kl].n - 1 - *ki];
+    __CPROVER_assume(c->my_max_workers >= 0 && c->my_min_workers >= 0 && c->my_max_workers <= M.my_priority_level_demand[*kl]);
+    return c;
+}
+void h_allot(void) {
+    g_mk = &M; mk_level(0, &IN_n0, &IN_d0); mk_level(1, &IN_n1, &IN_d1); mk_level(2, &IN_n2, &IN_d2);
+    M.my_total_demand = M.my_priority_level_demand[0] + M.my_priority_level_demand[1] + M.my_priority_level_demand[2];   /* market invariant */
+    M.my_num_workers_soft_limit = IN_soft = nondet_int(); __CPROVER_assume(0 <= IN_soft && IN_soft <= VALMAX);
+#ifdef SOFT0
+    __CPROVER_assume(IN_soft == 0);      /* case split of the job family: soft limit 0 (mandatory-concurrency branch) / soft limit > 0 (proportional branch) */
+#else
+    __CPROVER_assume(IN_soft != 0);
+#endif
+    M.my_mandatory_num_requested = IN_mand = nondet_int();
+    g_kv = pick(&g_has_k, &g_kl, &g_ki); g_wv = pick(&g_has_w, &g_wl, &g_wi);
+    G.karena.my_num_workers_allotted = g_allot0 = nondet_unsigned(); G.karena.my_is_top_priority = g_top0 = nondet_bool();
+    G.others.my_num_workers_allotted = nondet_unsigned(); G.others.my_is_top_priority = nondet_bool();
+    G.granted = 0; G.calls_k = 0;
+    { int e_ = (M.my_mandatory_num_requested > 0 && M.my_num_workers_soft_limit == 0) ? 1 : M.my_num_workers_soft_limit; g_budget = G.rem = M.my_total_demand < e_ ? M.my_total_demand : e_;
+      long r_ = g_budget;                                                /* the level shares the property prescribes */
+      g_exp[0] = M.my_priority_level_demand[0] < r_ ? M.my_priority_level_demand[0] : r_; r_ -= g_exp[0];
+      g_exp[1] = M.my_priority_level_demand[1] < r_ ? M.my_priority_level_demand[1] : r_; r_ -= g_exp[1];
+      g_exp[2] = M.my_priority_level_demand[2] < r_ ? M.my_priority_level_demand[2] : r_; r_ -= g_exp[2]; }
+    /* soft limit 0: a mandatory request registered with the market belongs to a client that also has a non-zero request (witness w); needed only by the
+       in-code assertion `assigned == max_workers` and by the exact-sum obligation in that mode */
+    if (M.my_num_workers_soft_limit == 0 && M.my_mandatory_num_requested > 0) __CPROVER_assume(g_has_w && g_wv->my_min_workers > 0 && g_wv->my_max_workers > 0);
+    int soft = M.my_num_workers_soft_limit, total = M.my_total_demand;
+    market_update_allotment(&M);
+    int eff = (M.my_mandatory_num_requested > 0 && soft == 0) ? 1 : soft; long budget = total < eff ? total : eff;
+    OBLIGATION(G.granted == budget, "C16.allot.sum: the workers granted over all arenas sum to min(total demand, effective limit)");
+    OBLIGATION(G.granted <= (long)eff, "C16.allot.limit: the workers granted never exceed the limit in force (soft limit, or 1 mandatory worker when the limit is 0)");
+    if (soft == 0) OBLIGATION(G.granted <= 1 && (G.granted == 0 || M.my_mandatory_num_requested > 0), "C16.allot.mandatory: with a soft limit of 0 at most one worker is granted in total, and only while a mandatory request exists");
+    if (soft != 0) OBLIGATION(G.lev[0] == g_exp[0] && G.lev[1] == g_exp[1] && G.lev[2] == g_exp[2], "C16.allot.levels: the arenas of each priority level are granted, in total, min(the level's demand, what the higher levels left)");
+    if (g_has_k) {
+        unsigned al = G.karena.my_num_workers_allotted; int mw = g_kv->my_max_workers;
+        OBLIGATION(G.calls_k == 1, "C16.allot.once: every registered client gets exactly one allotment decision per recalculation");
+        OBLIGATION(al <= (unsigned)mw, "C16.allot.request: no arena is granted more workers than it requested (and never a negative number)");
+        if (soft != 0) {
+            long lower = (g_kl == 0 ? G.lev[1] + G.lev[2] : g_kl == 1 ? G.lev[2] : 0);
+            OBLIGATION(lower == 0 || al == (unsigned)mw, "C16.allot.priority: a lower priority level is granted a worker only when every arena of the higher levels got its full request");
+        } else {
+            OBLIGATION(al == 0 || g_kv->my_min_workers > 0, "C16.allot.mandatory: with a soft limit of 0 only an arena with a mandatory request gets the worker");
+        }
+        if (mw > 0) OBLIGATION(G.karena.my_is_top_priority == (g_kl == FIRSTNZ(&M)), "C16.allot.top: an arena with a request is flagged top-priority iff no higher level holds demand");
+    }
+    VACUITY_END();
+}
+#endif
+
+#ifdef REQ
+/* arena::update_request (+ clamp<int>, is_arena_workerless, priority_level), pm_client::update_request/set_workers/priority_level, market::adjust_demand,
+   market::set_active_num_workers, permit_manager::notify_thread_request: the request an arena registers with the market is its outstanding total clamped into
+   [0, max_num_workers] (one mandatory worker for a workerless arena), and the market's demand counters stay the sums of the clients' requests - the precondition
+   under which update_allotment is proved (jobs allot.*).  The other clients of the market enter through g_rest[l], the sum of their requests per level. */
+#define NPL 3
+#define RMAX (1 << 28)
+struct int_pair { int first, second; };
+struct arena_r { int my_mandatory_requests, my_total_num_workers_requested; unsigned my_max_num_workers, my_priority_level; };
+struct pmclient { struct arena_r arena; int my_min_workers, my_max_workers; };
+#define PMC_ARENA(c) (&(c)->arena)            /* pm_client::my_arena: the arena the client was created for */
+struct market { int my_mutex; void *my_thread_request_observer; int my_num_workers_soft_limit, my_total_demand, my_priority_level_demand[NPL], my_mandatory_num_requested; };
+static int g_locked, g_lock_calls, g_allot_calls, g_notes, g_note_delta, g_soft_at_allot; static long g_rest[NPL]; static struct pmclient *g_c;
+#define LOCK_MUTEX(m) do { __CPROVER_assert(!g_locked, "C16.request: the market mutex is not taken twice"); g_locked = 1; g_lock_calls++; } while (0)
+#define UNLOCK_MUTEX(m) do { __CPROVER_assert(g_locked, "C16.request: unlock of a held mutex"); g_locked = 0; } while (0)
+#define SUMS_OK(m) ((long)(m)->my_total_demand == (long)(m)->my_priority_level_demand[0] + (m)->my_priority_level_demand[1] + (m)->my_priority_level_demand[2] \
+     && (m)->my_priority_level_demand[0] == g_rest[0] + (g_c->arena.my_priority_level == 0 ? g_c->my_max_workers : 0) \
+     && (m)->my_priority_level_demand[1] == g_rest[1] + (g_c->arena.my_priority_level == 1 ? g_c->my_max_workers : 0) \
+     && (m)->my_priority_level_demand[2] == g_rest[2] + (g_c->arena.my_priority_level == 2 ? g_c->my_max_workers : 0))
+static void STUB_update_allotment(struct market *m) {
+    g_allot_calls++; g_soft_at_allot = m->my_num_workers_soft_limit;
+    OBLIGATION(g_locked, "C16.request: the allotment is recomputed under the market mutex");
+    OBLIGATION(SUMS_OK(m) && g_c->my_max_workers >= 0 && g_c->my_min_workers >= 0,
+               "C16.request: whenever the allotment is recomputed, total demand == sum of the level demands and each level demand == sum of its clients' (non-negative) requests");
+}
+static void STUB_observer_update(struct market *m, int delta) { g_notes++; g_note_delta = delta; OBLIGATION(!g_locked, "C16.request: the thread-request observer is notified outside the market mutex"); }
+#include "request.inc"
+int IN_mand, IN_total, IN_md, IN_wd; unsigned IN_maxw;
+static void mk_arena_r(struct arena_r *a) {
+    a->my_mandatory_requests = IN_mand = nondet_int(); a->my_total_num_workers_requested = IN_total = nondet_int(); a->my_max_num_workers = IN_maxw = nondet_unsigned(); a->my_priority_level = nondet_unsigned();
+    __CPROVER_assume(IN_mand > -RMAX && IN_mand < RMAX && IN_total > -RMAX && IN_total < RMAX && IN_maxw <= RMAX && a->my_priority_level < NPL);
+}
+static void deltas(int *md, int *wd) { *md = IN_md = nondet_int(); *wd = IN_wd = nondet_int(); __CPROVER_assume(-1 <= *md && *md <= 1 && *wd > -RMAX && *wd < RMAX); }
+#define CAP(a, minw) (((minw) > 0 && (a)->my_max_num_workers == 0) ? 1 : (int)(a)->my_max_num_workers)
+void h_arena_update_request(void) {
+    struct arena_r a; mk_arena_r(&a); int md, wd; deltas(&md, &wd);
+    struct int_pair r = arena_update_request(&a, md, wd);
+    OBLIGATION(a.my_mandatory_requests == IN_mand + md && a.my_total_num_workers_requested == IN_total + wd, "C16.request: the arena's outstanding counters move by exactly the deltas");
+    OBLIGATION(r.first == (a.my_mandatory_requests > 0 ? 1 : 0), "C16.request: the minimal request is 1 exactly while a mandatory request is outstanding, else 0");
+    OBLIGATION(r.second >= 0, "C16.request: an arena never requests a negative number of workers");
+    OBLIGATION(r.second <= CAP(&a, r.first), "C16.request: an arena never requests more than max_num_workers (a workerless arena: one worker, and only while it has a mandatory request)");
+    int tot = a.my_total_num_workers_requested, cap = CAP(&a, r.first);
+    OBLIGATION(r.second == (tot < 0 ? 0 : tot > cap ? cap : tot), "C16.request: the request is the outstanding total clamped into [0, cap]");
+    VACUITY_END();
+}
+void h_pm_update_request(void) {
+    struct pmclient c; mk_arena_r(&c.arena); c.my_min_workers = nondet_int(); c.my_max_workers = nondet_int(); __CPROVER_assume(c.my_max_workers >= 0 && c.my_max_workers <= RMAX);
+    int md, wd; deltas(&md, &wd); int mw0 = c.my_max_workers;
+    int d = pm_client_update_request(&c, md, wd);
+    OBLIGATION(c.my_max_workers == mw0 + d, "C16.request: the delta reported to the market is exactly the change of the client's recorded request");
+    OBLIGATION(c.my_max_workers >= 0 && c.my_max_workers <= CAP(&c.arena, c.my_min_workers) && (c.my_min_workers == 0 || c.my_min_workers == 1), "C16.request: the recorded request lies in [0, cap], the recorded minimum is 0 or 1");
+    OBLIGATION(c.my_min_workers == (c.arena.my_mandatory_requests > 0 ? 1 : 0), "C16.request: the recorded minimum mirrors the arena's outstanding mandatory requests");
+    VACUITY_END();
+}
+static void mk_market(struct market *m, struct pmclient *c) {
+    mk_arena_r(&c->arena); c->my_min_workers = nondet_int(); c->my_max_workers = nondet_int(); __CPROVER_assume(c->my_max_workers >= 0 && c->my_max_workers <= RMAX && c->my_min_workers >= 0);
+    g_c = c; g_rest[0] = nondet_long(); g_rest[1] = nondet_long(); g_rest[2] = nondet_long(); __CPROVER_assume(g_rest[0] >= 0 && g_rest[0] <= RMAX && g_rest[1] >= 0 && g_rest[1] <= RMAX && g_rest[2] >= 0 && g_rest[2] <= RMAX);
+    m->my_mutex = 0; m->my_thread_request_observer = (void *)m; m->my_num_workers_soft_limit = nondet_int(); m->my_mandatory_num_requested = nondet_int();
+    __CPROVER_assume(m->my_mandatory_num_requested > -RMAX && m->my_mandatory_num_requested < RMAX);
+    m->my_priority_level_demand[0] = nondet_int(); m->my_priority_level_demand[1] = nondet_int(); m->my_priority_level_demand[2] = nondet_int(); m->my_total_demand = nondet_int();
+    __CPROVER_assume(SUMS_OK(m));                                 /* market invariant before the call */
+    g_locked = g_lock_calls = g_allot_calls = g_notes = 0;
+}
+void h_adjust_demand(void) {
+    struct market m; struct pmclient c; mk_market(&m, &c); int md, wd; deltas(&md, &wd);
+    int mw0 = c.my_max_workers, total0 = m.my_total_demand, mnr0 = m.my_mandatory_num_requested, soft0 = m.my_num_workers_soft_limit;
+    market_adjust_demand(&m, &c, md, wd);
+    OBLIGATION(!g_locked && g_lock_calls == 1, "C16.request: the market mutex is taken once and released");
+    OBLIGATION(g_allot_calls == 1, "C16.request: every demand change recomputes the allotment exactly once");
+    OBLIGATION(SUMS_OK(&m), "C16.request: after adjust_demand the demand counters are again the sums of the clients' requests (other levels and other clients untouched)");
+    OBLIGATION(m.my_total_demand == total0 + (c.my_max_workers - mw0), "C16.request: total demand moves by the change of this client's request");
+    OBLIGATION(m.my_mandatory_num_requested == mnr0 + md && m.my_num_workers_soft_limit == soft0, "C16.request: the count of mandatory requests moves by mandatory_delta; the soft limit is untouched");
+    OBLIGATION(g_notes == (c.my_max_workers != mw0 ? 1 : 0) && (g_notes == 0 || g_note_delta == c.my_max_workers - mw0), "C16.request: the thread-request observer is told the change of the total demand, exactly once, and only when there is one");
+    VACUITY_END();
+}
+void h_set_active(void) {
+    struct market m; struct pmclient c; mk_market(&m, &c); int soft = nondet_int(); int soft0 = m.my_num_workers_soft_limit, total0 = m.my_total_demand;
+    market_set_active_num_workers(&m, soft);
+    OBLIGATION(!g_locked && g_lock_calls == 1, "C16.request: the market mutex is taken once and released");
+    OBLIGATION(m.my_num_workers_soft_limit == soft, "C16.limit: the soft limit in force is the one last set");
+    OBLIGATION(g_allot_calls == (soft != soft0 ? 1 : 0) && (g_allot_calls == 0 || g_soft_at_allot == soft), "C16.limit: a changed limit recomputes the allotment once, with the new limit already in force");
+    OBLIGATION(m.my_total_demand == total0 && SUMS_OK(&m), "C16.limit: changing the limit leaves the demand counters alone");
+    VACUITY_END();
+}
+#endif
+
+#ifdef TRSQ
+/* thread_request_serializer::update / set_active_num_workers.  Rely/guarantee on the packed word my_pending_delta (any number of other threads in update, SC atomics)
+   plus the mutex section treated as one step (other holders leave the section invariant LINV behind).
+   Ghost census of the word: g_cnt update calls and g_pend = sum of their deltas are pending (not yet collected); g_agg: the thread that found the word at its base
+   value (the aggregator) has not yet collected; g_sub / g_coll: sums of all deltas submitted / collected so far.
+     INV_W: word == base + g_cnt * 2^16 + g_pend, g_sub == g_coll + g_pend (nothing lost, nothing counted twice), g_agg <=> g_cnt > 0, g_cnt == 0 => g_pend == 0.
+     LINV:  what the thread dispatcher has been told in total (g_est) == min(soft limit, total request).
+   Domain (assumed, the job family splits on it): the sum of the deltas pending at any one time lies in [PEND_MIN, PEND_MAX]; fewer than 2^15 calls are pending at once. */
+#ifdef WIDE       /* the other half of the domain: ONE call (nothing else pending) whose delta does not fit 16 bits, e.g. the first request of an arena with 32768 or more worker slots */
+#define PEND_MAX ((long)1 << 24)
+#define PEND_MIN (-((long)1 << 24))
+#define CNT_MAX 1L
+#else
+#define PEND_MAX 32767L
+#define PEND_MIN (-32768L)
+#define CNT_MAX ((long)1 << 15)
+#endif
+#define TMAX ((long)1 << 28)
+#include "serializer_defs.inc"
+struct trs { uint64_t my_pending_delta; int my_total_request, my_soft_limit, my_mutex; };
+static long g_cnt, g_pend, g_sub, g_coll, g_est; static bool g_agg, g_me_agg, g_locked; static int g_sections; static long g_my_collected, g_total_at_lock;
+static struct trs *g_s; static int g_arg_delta;
+#define INV_W (0 <= g_cnt && g_cnt <= CNT_MAX && PEND_MIN <= g_pend && g_pend <= PEND_MAX && -TMAX < g_sub && g_sub < TMAX && -TMAX < g_coll && g_coll < TMAX \
+     && g_s->my_pending_delta == (uint64_t)((long)pending_delta_base + g_cnt * 65536L + g_pend) \
+     && g_sub == g_coll + g_pend && g_agg == (g_cnt > 0) && (g_cnt > 0 || g_pend == 0) && (!g_me_agg || g_agg))
+#define LINV ((long)g_est == (g_s->my_soft_limit < g_s->my_total_request ? g_s->my_soft_limit : g_s->my_total_request))
+#define LRANGE (-TMAX < g_s->my_total_request && g_s->my_total_request < TMAX && 0 <= g_s->my_soft_limit && g_s->my_soft_limit < TMAX)
+/* any number of steps of other threads on the word: more update calls arrive; unless I am the aggregator, the current aggregator may collect (word back to base) and new rounds may start */
+static void interfere(void) {
+    long cnt0 = g_cnt, coll0 = g_coll, sub0 = g_sub; bool agg0 = g_agg;
+    g_s->my_pending_delta = nondet_u64(); g_cnt = nondet_long(); g_pend = nondet_long(); g_sub = nondet_long(); g_coll = nondet_long(); g_agg = nondet_bool();
+    __CPROVER_assume(INV_W);
+    if (g_me_agg) __CPROVER_assume(g_coll == coll0 && g_cnt >= cnt0 && (g_cnt != cnt0 || g_sub == sub0));            /* rely: only the aggregator collects, and that is me; others only add calls */
+}
+#define ATOMIC_FETCH_ADD_AT(site, x, v) ({ interfere(); uint64_t old_ = (x); uint64_t v_ = (v); long d_ = (long)(int64_t)(v_ - 65536u); \
+      __CPROVER_assume(g_cnt < CNT_MAX && PEND_MIN <= g_pend + d_ && g_pend + d_ <= PEND_MAX && -TMAX < g_sub + d_ && g_sub + d_ < TMAX);   /* domain */ \
+      OBL(d_ == (long)g_arg_delta, "C16.serializer.update: the word is advanced by one call and exactly the caller's delta"); \
+      (x) += v_; g_cnt++; g_pend += d_; g_sub += d_; if (!g_agg) { g_agg = true; g_me_agg = true; } \
+      __CPROVER_assert(INV_W, "C16.serializer: guarantee: after fetch_add the word still encodes (number, sum) of the pending calls"); old_; })
+#define ATOMIC_XCHG_AT(site, x, v) ({ interfere(); uint64_t old_ = (x); (x) = (v); \
+      OBL(g_me_agg, "C16.serializer.update: only the aggregator (the one caller that found the word at its base value) collects"); \
+      g_my_collected = g_pend; g_coll += g_pend; g_pend = 0; g_cnt = 0; g_agg = false; g_me_agg = false; \
+      __CPROVER_assert(INV_W, "C16.serializer: guarantee: after the exchange the word is back at base with nothing pending"); old_; })
+#define ATOMIC_LOAD_AT(site, x) (x)
+#define ATOMIC_STORE_AT(site, x, v) ((x) = (v))
+#define LOCK_MUTEX(m) do { __CPROVER_assert(!g_locked, "C16.serializer: the mutex is not taken twice"); g_s->my_total_request = nondet_int(); g_s->my_soft_limit = nondet_int(); g_est = nondet_long(); __CPROVER_assume(LRANGE && LINV); \
+      g_locked = true; g_sections++; g_total_at_lock = g_s->my_total_request; } while (0)
+#define UNLOCK_MUTEX(m) do { __CPROVER_assert(g_locked, "C16.serializer: unlock of a held mutex"); \
+      OBL(LINV, "C16.serializer.limit: when the mutex is released the thread dispatcher has been told exactly min(soft limit, total request) - the soft limit clamps what is passed on"); g_locked = false; } while (0)
+static void STUB_adjust_job_count_estimate(struct trs *s, int d) { __CPROVER_assert(g_locked, "C16.serializer: the dispatcher is adjusted under the mutex"); g_est += d; }
+#ifdef WIDE
+#define OBL(c, m) OBLIGATION(c, m " [pending sum beyond 16 bits]")
+#else
+#define OBL(c, m) OBLIGATION(c, m)
+#endif
+#include "serializer.inc"
+int IN_delta, IN_soft; long IN_pend, IN_cnt;
+static void mk_trs(struct trs *s) {
+    g_s = s; s->my_pending_delta = nondet_u64(); s->my_total_request = nondet_int(); s->my_soft_limit = nondet_int(); s->my_mutex = 0;
+    g_cnt = nondet_long(); g_pend = nondet_long(); g_sub = nondet_long(); g_coll = nondet_long(); g_est = nondet_long(); g_agg = nondet_bool(); g_me_agg = false; g_locked = false; g_sections = 0; g_my_collected = 0;
+    __CPROVER_assume(INV_W && LRANGE && LINV);
+}
+void h_trs_update(void) {
+    struct trs s; mk_trs(&s); int delta = IN_delta = nondet_int(); __CPROVER_assume(delta > -TMAX && delta < TMAX);
+    g_arg_delta = delta;
+    trs_update(&s, delta);
+    IN_pend = g_my_collected;
+    OBL(!g_locked && !g_me_agg, "C16.serializer.update: on return the mutex is free and the caller is no longer the aggregator");
+    OBL(g_sections <= 1, "C16.serializer.update: at most one mutex section per call");
+    if (g_sections == 0) OBL(g_agg || g_pend == 0, "C16.serializer.update: a caller that leaves its delta in the word leaves it to an aggregator that has not collected yet - no delta is stranded");
+    else OBL((long)s.my_total_request == g_total_at_lock + g_my_collected, "C16.serializer.update: every delta handed to update is applied to the total exactly once: the aggregator adds exactly the sum of all deltas that were pending");
+    VACUITY_END();
+}
+void h_trs_set_active(void) {
+    struct trs s; mk_trs(&s); int soft = IN_soft = nondet_int(); __CPROVER_assume(soft >= 0 && soft < TMAX);
+    trs_set_active_num_workers(&s, soft);
+    OBL(!g_locked && g_sections == 1 && s.my_soft_limit == soft, "C16.serializer.limit: the new soft limit is in force when the mutex is released");
+    OBL((long)s.my_total_request == g_total_at_lock, "C16.serializer.limit: changing the limit leaves the total request alone");
+    VACUITY_END();
+}
+#endif
+
+#ifdef FLAG
+/* arena.h atomic_flag (my_pool_state: EMPTY/FULL with a transient per-thread `busy` token while a thread takes the emptiness snapshot; my_mandatory_concurrency likewise).
+   Rely/guarantee on the one word my_state for any number of other threads in test_and_set / try_clear_if (SC).  Ghost: g_sets / g_clears = number of calls of
+   test_and_set / try_clear_if that returned true so far.  INV: word == UNSET <=> g_sets == g_clears, otherwise g_sets == g_clears + 1 - every FULL epoch is opened
+   by exactly one advertiser (the one that will request workers) and closed by exactly one snapshot taker (the one that will release them).
+   Rely: the others make only the transitions of these two functions: UNSET->SET (sets++), busy_x->SET, SET->busy_other, busy_other->UNSET (clears++); nobody but me
+   writes my busy token, and nobody but me clears while the word holds my token. */
+#include "flag_defs.inc"
+struct atomic_flag { uintptr_t my_state; };
+static struct atomic_flag *g_f; static long g_sets, g_clears, g_my_sets, g_my_clears; static uintptr_t g_mytoken; static bool g_interrupted, g_seen_nonunset, g_was_set_at_start; static int g_pred_calls; static bool g_pred_val, g_in_txn_at_pred;
+#define CMAXF ((long)1 << 40)
+#define INV_F(w) (0 <= g_clears && g_clears <= g_sets && ((w) == FLAG_UNSET ? g_sets == g_clears : g_sets == g_clears + 1))
+static void interfere(void) {
+    uintptr_t w0 = g_f->my_state; long s0 = g_sets, c0 = g_clears;
+    g_f->my_state = nondet_uintptr_t(); g_sets = nondet_long(); g_clears = nondet_long();
+    __CPROVER_assume(g_sets >= s0 && g_clears >= c0 && g_sets < CMAXF && INV_F(g_f->my_state));
+    if (g_mytoken != 0) {
+        __CPROVER_assume(g_f->my_state != g_mytoken || w0 == g_mytoken);                            /* nobody else writes my token */
+        if (w0 == g_mytoken && g_f->my_state == g_mytoken) __CPROVER_assume(g_sets == s0 && g_clears == c0);   /* while it stands nothing else can happen to the word */
+        if (w0 == g_mytoken && g_f->my_state != g_mytoken) g_interrupted = true;                    /* an advertiser turned my token into SET */
+    }
+}
+#define ATOMIC_LOAD_AT(site, x) ({ interfere(); if ((x) != FLAG_UNSET) g_seen_nonunset = true; (x); })
+/* a write of mine old_ -> des_: classify it, update the census */
+static void flag_transition(uintptr_t old_, uintptr_t des_) {
+    if (old_ == FLAG_UNSET && des_ == FLAG_SET) { g_sets++; g_my_sets++; }
+    else if (old_ == FLAG_SET && des_ != FLAG_SET && des_ != FLAG_UNSET) { g_mytoken = des_; g_interrupted = false; g_was_set_at_start = true; }
+    else if (old_ != FLAG_SET && old_ != FLAG_UNSET && des_ == FLAG_SET) { if (old_ == g_mytoken) g_mytoken = 0; }
+    else if (old_ != FLAG_SET && old_ != FLAG_UNSET && des_ == FLAG_UNSET) { OBLIGATION(old_ == g_mytoken, "C16.flag: guarantee: a thread turns only its OWN busy token into UNSET"); g_clears++; g_my_clears++; g_mytoken = 0; }
+    else OBLIGATION(0, "C16.flag: guarantee: only the transitions UNSET->SET, SET->busy(me), busy->SET, busy(me)->UNSET are made");
+}
+#define ATOMIC_CAS_AT(site, x, pexp, des) ({ interfere(); uintptr_t old_ = (x), des_ = (des); bool ok_ = (old_ == *(pexp)); \
+      if (ok_) { (x) = des_; flag_transition(old_, des_); } else *(pexp) = old_; \
+      if ((x) != FLAG_UNSET) g_seen_nonunset = true; \
+      __CPROVER_assert(INV_F(x), "C16.flag: guarantee: word == UNSET exactly when every successful test_and_set has been matched by a successful clear"); ok_; })
+#define ATOMIC_STORE_AT(site, x, v) ({ interfere(); uintptr_t old_ = (x), des_ = (v); (x) = des_; flag_transition(old_, des_); \
+      __CPROVER_assert(INV_F(x), "C16.flag: guarantee: word == UNSET exactly when every successful test_and_set has been matched by a successful clear"); })
+static bool STUB_pred(void) { g_pred_calls++; g_in_txn_at_pred = (g_mytoken != 0); g_pred_val = nondet_bool(); return g_pred_val; }
+#include "flag.inc"
+static void mk_flag(struct atomic_flag *f) {
+    g_f = f; f->my_state = nondet_uintptr_t(); g_sets = nondet_long(); g_clears = nondet_long(); __CPROVER_assume(g_sets < CMAXF && INV_F(f->my_state));
+    g_my_sets = g_my_clears = 0; g_mytoken = 0; g_interrupted = false; g_seen_nonunset = false; g_was_set_at_start = false; g_pred_calls = 0; g_pred_val = false; g_in_txn_at_pred = false;
+}
+void h_flag_test_and_set(void) {
+    struct atomic_flag f; mk_flag(&f);
+    bool r = flag_test_and_set(&f);
+    OBLIGATION(r == (g_my_sets == 1) && g_my_sets <= 1 && g_my_clears == 0, "C16.flag.set: test_and_set returns true exactly when THIS call moved the word UNSET->SET (one advertiser per FULL epoch requests the workers)");
+    OBLIGATION(r || g_seen_nonunset, "C16.flag.set: a call that returns false saw (or left) the word non-UNSET during the call - the work it advertises belongs to an epoch somebody opened");
+    VACUITY_END();
+}
+void h_flag_try_clear_if(void) {
+    struct atomic_flag f; mk_flag(&f);
+    bool r = flag_try_clear_if(&f);
+    OBLIGATION(r == (g_my_clears == 1) && g_my_clears <= 1 && g_my_sets == 0, "C16.flag.clear: try_clear_if returns true exactly when THIS call moved the word to UNSET");
+    OBLIGATION(!r || (g_pred_calls == 1 && g_pred_val && g_in_txn_at_pred && g_was_set_at_start && !g_interrupted),
+               "C16.flag.clear: the flag is cleared only if the word was SET, the snapshot predicate was evaluated inside this thread's busy window and found nothing, and no test_and_set intervened before the clear");
+    OBLIGATION(g_pred_calls <= 1 && (g_pred_calls == 0 || g_in_txn_at_pred), "C16.flag.clear: the snapshot is taken at most once, and only after the word was moved SET->busy by this thread");
+    OBLIGATION(g_mytoken == 0 || f.my_state != g_mytoken, "C16.flag.clear: the busy token (the address of a local variable) is not left in the word when the call returns");
+    VACUITY_END();
+}
+#endif
+
+#ifdef ADV
+/* arena::advertise_new_work<work_type> and arena::out_of_work: what is sent to request_workers (-> adjust_demand -> arena::update_request) for each flag transition */
+struct atomic_flag { int id; };
+struct arena_w { struct atomic_flag my_mandatory_concurrency, my_pool_state; unsigned my_num_slots, my_num_reserved_slots, my_max_num_workers; };
+static bool g_tas_m, g_tas_p, g_tci_m, g_tci_p, g_m_called, g_p_called, g_pred_m_evald, g_pred_p_evald, g_enq, g_tasks, g_txn_m, g_txn_p; static int g_req_calls, g_md, g_wd; static bool g_wake; static int g_order;
+static bool flag_tas(struct atomic_flag *f) { bool r = nondet_bool(); if (f->id == 0) { g_m_called = true; g_tas_m = r; } else { g_p_called = true; g_tas_p = r; } return r; }
+#define FLAG_TEST_AND_SET(f) flag_tas(&(f))
+/* try_clear_if: the predicate is evaluated only if the flag was SET and this thread got the busy window (job flag.try_clear_if); true is returned only if the predicate held */
+#define FLAG_TRY_CLEAR_IF(f, pred) ({ bool txn_ = nondet_bool(), r_ = false; if ((f).id == 0) { g_m_called = true; g_order = 1; g_txn_m = txn_; } else { g_p_called = true; g_order = 2; g_txn_p = txn_; } \
+      if (txn_) { bool p_ = (pred); r_ = p_ && nondet_bool(); } if ((f).id == 0) g_tci_m = r_; else g_tci_p = r_; r_; })
+static bool STUB_has_enqueued_tasks(struct arena_w *a) { g_pred_m_evald = true; return g_enq; }
+static bool STUB_has_tasks(struct arena_w *a) { g_pred_p_evald = true; return g_tasks; }
+static void STUB_request_workers(struct arena_w *a, int md, int wd, bool wake) { g_req_calls++; g_md = md; g_wd = wd; g_wake = wake; }
+static void STUB_request_workers3(struct arena_w *a, int md, int wd) { STUB_request_workers(a, md, wd, false); }
+#include "advertise.inc"
+static void mk_arena_w(struct arena_w *a) {
+    a->my_mandatory_concurrency.id = 0; a->my_pool_state.id = 1; a->my_num_slots = nondet_unsigned(); a->my_num_reserved_slots = nondet_unsigned(); a->my_max_num_workers = nondet_unsigned();
+    __CPROVER_assume(a->my_num_slots >= 2 && a->my_num_slots <= (1u << 28) && a->my_num_reserved_slots <= a->my_num_slots && a->my_max_num_workers <= a->my_num_slots - a->my_num_reserved_slots);   /* arena constructor */
+    g_tas_m = g_tas_p = g_tci_m = g_tci_p = g_m_called = g_p_called = g_pred_m_evald = g_pred_p_evald = g_txn_m = g_txn_p = false; g_enq = nondet_bool(); g_tasks = nondet_bool(); g_req_calls = 0; g_md = g_wd = 0; g_order = 0;
+}
+#define WORKERLESS(a) ((a)->my_max_num_workers == 0)
+void h_advertise(void) {
+    struct arena_w a; mk_arena_w(&a); enum new_work_type wt = nondet_bool() ? work_spawned : nondet_bool() ? wakeup : work_enqueued;
+    arena_advertise_new_work(&a, wt);
+    bool mset = g_m_called && g_tas_m, pset = g_p_called && g_tas_p;
+    OBLIGATION(!g_m_called || (wt == work_enqueued && a.my_num_slots > a.my_num_reserved_slots), "C16.request: mandatory concurrency is asked for only by enqueued work, in an arena that has a slot a worker may take");
+    OBLIGATION(g_p_called, "C16.request: every advertisement marks the pool non-empty");
+    OBLIGATION(g_req_calls == ((mset || pset) ? 1 : 0), "C16.request: workers are requested exactly when this call opened an epoch of one of the two flags - one request per epoch");
+    if (g_req_calls) {
+        OBLIGATION(g_md == (mset ? 1 : 0), "C16.request: mandatory_delta is +1 exactly when this call set the mandatory flag, else 0 (always within {-1,0,1})");
+        OBLIGATION(g_wd == ((mset && WORKERLESS(&a)) ? 1 : pset ? (int)a.my_max_num_workers : 0), "C16.request: workers_delta is +max_num_workers when this call marked the pool non-empty; a workerless arena asks for its single extra worker together with the mandatory request");
+        OBLIGATION(g_wd >= 0 && (g_wd <= (int)a.my_max_num_workers || (WORKERLESS(&a) && g_wd == 1 && g_md == 1)), "C16.request: an advertisement never asks for more than max_num_workers (one for a workerless arena with enqueued work)");
+        OBLIGATION(g_wake, "C16.request: sleeping threads of the arena are woken");
+    }
+    VACUITY_END();
+}
+void h_out_of_work(void) {
+    struct arena_w a; mk_arena_w(&a);
+    arena_out_of_work(&a);
+    bool mclr = g_tci_m, pclr = g_tci_p;
+    OBLIGATION(g_m_called && g_p_called, "C16.request: both flags are tried");
+    OBLIGATION(!mclr || !g_enq, "C16.empty: mandatory concurrency is given up only when no enqueued task was visible in the snapshot");
+    OBLIGATION(!pclr || !g_tasks, "C16.empty: the arena is declared empty (workers released) only when no task was visible in any pool or stream during the snapshot");
+    OBLIGATION(g_pred_m_evald == g_txn_m && g_pred_p_evald == g_txn_p, "C16.empty: each snapshot predicate is evaluated inside the busy window of its own flag");
+    OBLIGATION(g_req_calls == ((mclr || pclr) ? 1 : 0), "C16.request: workers are given back exactly when this call closed an epoch of one of the two flags");
+    if (g_req_calls) {
+        OBLIGATION(g_md == (mclr ? -1 : 0), "C16.request: mandatory_delta is -1 exactly when this call cleared the mandatory flag, else 0 (always within {-1,0,1})");
+        OBLIGATION(g_wd == ((mclr && WORKERLESS(&a)) ? -1 : pclr ? -(int)a.my_max_num_workers : 0), "C16.request: workers_delta mirrors the advertisement that opened the epoch: -max_num_workers for the pool state, -1 for a workerless arena's mandatory request");
+    }
+    VACUITY_END();
+}
+#endif
+
+#ifdef HT
+/* arena::has_tasks (+ has_enqueued_tasks, arena_slot::is_empty): the emptiness snapshot out_of_work takes inside the busy window of my_pool_state.
+   Slots of ANY number (loop contract); obligations for ONE arbitrary slot k.  The state examined is one fixed state; tasks published while the scan runs are the
+   business of the flag protocol (their publisher's test_and_set destroys the busy token, job flag.try_clear_if). */
+#define NMAXS ((size_t)1 << 12)
+#define EmptyTaskPool NULL
+struct slot_t { void **task_pool; size_t head, tail; };
+struct stream_t { unsigned long population; };
+struct arena_t { unsigned my_limit; struct stream_t my_fifo_task_stream, my_resume_task_stream, my_critical_task_stream; struct slot_t *my_slots; };
+#define ATOMIC_LOAD(x) (x)
+#define STREAM_EMPTY(s) (!(s).population)
+static size_t g_k;
+#define SLOT_HAS_TASK(s) ((s)->task_pool != EmptyTaskPool && (s)->head < (s)->tail)
+#define LOOP_ht_1 __CPROVER_assigns(k, tasks_are_available) __CPROVER_loop_invariant(k <= n && (tasks_are_available || !(g_k < k) || !SLOT_HAS_TASK(&self->my_slots[g_k]))) __CPROVER_decreases(n - k)
+#include "has_tasks.inc"
+void h_has_tasks(void) {
+    struct arena_t a; a.my_limit = nondet_unsigned(); __CPROVER_assume(a.my_limit >= 1 && a.my_limit <= NMAXS);
+    a.my_slots = malloc(a.my_limit * sizeof(struct slot_t)); __CPROVER_assume(a.my_slots != NULL);
+    a.my_fifo_task_stream.population = nondet_ulong(); a.my_resume_task_stream.population = nondet_ulong(); a.my_critical_task_stream.population = nondet_ulong();
+    g_k = nondet_size_t(); __CPROVER_assume(g_k < a.my_limit);
+    bool r = arena_has_tasks(&a);
+    OBLIGATION(r || !SLOT_HAS_TASK(&a.my_slots[g_k]), "C16.empty: has_tasks says `no task` only if every slot below my_limit was seen without a published, non-empty task pool");
+    OBLIGATION(r || (a.my_fifo_task_stream.population == 0 && a.my_resume_task_stream.population == 0 && a.my_critical_task_stream.population == 0),
+               "C16.empty: has_tasks says `no task` only if the enqueue, resume and critical streams were all seen empty");
     VACUITY_END();
 }
 #endif
